@@ -123,3 +123,19 @@ Proof.
   assert (E : Reqb 300 400 = false) by (apply Reqb_false; lra).
   cbn [negb andb]. rewrite ?E. cbn. rewrite ?E, ?Reqb_refl. reflexivity.
 Qed.
+
+(* ---------- "merging the same data twice changes nothing" ---------- *)
+Theorem C13_table_merge_twice : forall a x ax, NoDup (map fst x) ->
+  merge_tab (K:=Rops) a a x false = Ok ax -> merge_tab (K:=Rops) ax ax x false = Ok ax.
+Proof. exact table_idempotent. Qed.
+Theorem C13_range_merge_twice : forall a x : option (R * R),
+  range_union (K:=Rops) (range_union (K:=Rops) a x) x = range_union (K:=Rops) a x.
+Proof. exact range_union_idempotent. Qed.
+(* the whole correlation (table, range, reference enthalpy and entropy, the re-fit): a second merge of the same
+   correlation succeeds and returns the same correlation; isclose x x holds for every finite x *)
+Theorem C13_update_twice : forall splint quadS lnr isclose, (forall a, isclose a a = true) ->
+  forall self other new, NoDup (map fst (i_tab other)) ->
+  corr_update (K:=Rops) splint quadS lnr isclose self other false = (new, None) ->
+  corr_update (K:=Rops) splint quadS lnr isclose new other false = (new, None).
+Proof. exact update_idempotent. Qed.
+Print Assumptions C13_update_twice.
